@@ -1180,7 +1180,9 @@ class Order(Family):
                     bodies.append(json.dumps(gen_doc_meta(rng), sort_keys=True) + '\n')
                 elif nm in ('preamble', 'diff'):
                     bodies.append(rng.choice(['1 file, 2 changes\n', 'files: 0\n', '--- a\n+++ b\n@@ -1 +1 @@\n-x\n+y\n', '{"stats": {"files": 0}}\n',
-                                              'version=1.0, encoding=utf-8\n', 'x\n']))
+                                              'version=1.0, encoding=utf-8\n', 'x\n',
+                                              # content that is nothing but line breaks / white space (what separates headers)
+                                              '\n', '\n\n', '\n\n\n\n', ' \n', '\t\n \n']))
                 else:
                     bodies.append(None)
             yield dict(kind='walk-content', ids=seq, bodies=bodies)
